@@ -1,0 +1,62 @@
+//go:build verif
+
+package future
+
+import "github.com/kercylan98/minotaur/engine/prc"
+
+// Accessors for the verification harness in /verif (build tag verif only).
+
+// VerifSnapshot is a read-only copy of a future's fields.
+type VerifSnapshot struct {
+	Closed     bool        // closed flag
+	DoneClosed bool        // the done channel is closed
+	RCSet      bool        // Initialize ran (rc != nil)
+	TimerSet   bool        // timer != nil
+	Message    prc.Message // message as stored (possibly a *prc.MessageWrapper)
+	Err        error
+	Forwards   int // registered, not yet executed forward targets
+}
+
+// VerifState returns a snapshot of f. The caller must make sure that no goroutine is inside a
+// method of f (the harness reads it while every managed goroutine is parked at a hook).
+func VerifState[M prc.Message](f Future[M]) (s VerifSnapshot, ok bool) {
+	fp, ok := f.(*futureProcess[M])
+	if !ok {
+		return s, false
+	}
+	s.Closed = fp.closed.Load()
+	select {
+	case <-fp.done:
+		s.DoneClosed = true
+	default:
+	}
+	s.RCSet = fp.rc != nil
+	s.TimerSet = fp.timer != nil
+	s.Message = fp.message
+	s.Err = fp.err
+	s.Forwards = len(fp.forwards)
+	return s, true
+}
+
+// VerifFireTimer lets the armed timeout timer expire now instead of after the configured duration:
+// the timer is claimed the way the runtime claims it when it fires (Stop reports whether it was
+// still pending) and the timer callback's body runs in the calling goroutine. Returns false when
+// there is no timer or it had been stopped or had fired before.
+func VerifFireTimer[M prc.Message](f Future[M]) bool {
+	fp, ok := f.(*futureProcess[M])
+	if !ok || fp.timer == nil || !fp.timer.Stop() {
+		return false
+	}
+	fp.Close(ErrorFutureTimeout)
+	return true
+}
+
+// VerifStopTimer stops the timeout timer and reports whether it was still pending (used once, at
+// the end of a run, to observe whether a completed future left its timer armed).
+func VerifStopTimer[M prc.Message](f Future[M]) bool {
+	fp, ok := f.(*futureProcess[M])
+	if !ok || fp.timer == nil {
+		return false
+	}
+	return fp.timer.Stop()
+}
